@@ -25,6 +25,17 @@ Definition dispatch (fn : Z) (a : sexp) : sexp :=
                 (if Nat.eqb k 0 then true else d_bool (d_nth a 3)))
   | 10%Z => e_res e_str (bibtex_first_letter (d_str (d_nth a 0)))
   | 11%Z => e_res e_str (bibtex_abbreviate (d_str (d_nth a 0)) (d_opt d_str (d_nth a 1)))
+  | 12%Z =>
+    let s := d_str (d_nth a 1) in
+    match d_nat (d_nth a 0) with
+    | 0 => e_res e_str (bst_substring s (d_Z (d_nth a 2)) (d_Z (d_nth a 3)))
+    | 1 => e_res e_str (bst_text_prefix s (d_Z (d_nth a 2)))
+    | 2 => e_res e_nat (bst_text_length s)
+    | 3 => e_res e_str (bst_purify s)
+    | 4 => e_res e_str (bst_change_case s (d_str (d_nth a 4)))
+    | 5 => e_res e_Z (bst_width (cw_of (d_cw (d_nth a 5))) s)
+    | _ => e_res e_nat (bst_num_names s)
+    end
   | _ => L []
   end.
 
